@@ -211,6 +211,7 @@ const prelude = `(declare-sort Str 0)
 (declare-fun sconcat (Str Str) Str)
 (declare-fun ssub (Str Int Int) Str)
 (declare-fun slt (Str Str) Bool)
+(assert (forall ((x Str) (y Str)) (! (=> (slt x y) (and (not (slt y x)) (not (= x y)))) :pattern ((slt x y)))))
 (declare-datatypes ((Slice 0)) (((mk_slice (s_base Int) (s_off Int) (s_len Int) (s_cap Int)))))
 (declare-datatypes ((Iface 0)) (((mk_iface (i_tag Int) (i_box Int)))))
 (define-fun tdiv ((a Int) (b Int)) Int (ite (>= a 0) (ite (> b 0) (div a b) (- (div a (- b)))) (ite (> b 0) (- (div (- a) b)) (div (- a) (- b)))))
